@@ -907,3 +907,73 @@ mutant("c17-generate-no-retry", "C17", "C17-D3", "engine.io/base64id.go",
 mutant("c17-lookup-by-transport-param", "C17", "C17-D2", "engine.io/server.go",
        "		socket, ok := s.store.get(sid)\n		if !ok {\n			writeServerError(w, ErrorUnknownSID)\n			return\n		}\n\n		t := socket.Transport()",
        "		socket, ok := s.store.get(sid)\n		if !ok {\n			s.handleHandshake(w, r)\n			return\n		}\n\n		t := socket.Transport()")
+
+# ---------------------------------------------------------------- C04
+mutant("c04-no-sender-exclusion", "C04", "C04-D2", "server_socket.go",
+       "	return adapter.NewBroadcastOperator(s.nsp.Name(), s.adapter, IsEventReservedForServer).Except(Room(s.ID()))",
+       "	return adapter.NewBroadcastOperator(s.nsp.Name(), s.adapter, IsEventReservedForServer)")
+mutant("c04-to-mutates-receiver", "C04", "C04-D3", "adapter/broadcast_operator.go",
+       """	n := *b
+	n.rooms = b.rooms.Clone()
+	for _, r := range room {
+		n.rooms.Add(Room(r))
+	}
+	return &n""",
+       """	n := *b
+	for _, r := range room {
+		n.rooms.Add(Room(r))
+	}
+	return &n""")
+mutant("c04-all-branch-ignores-except", "C04", "C04-D4", "adapter/adapter_memory.go",
+       """			if exceptSids.Contains(sid) {
+				continue
+			}
+			socket, ok := a.sockets.Get(sid)""",
+       """			socket, ok := a.sockets.Get(sid)""")
+mutant("c04-no-dedup-mark", "C04", "C04-D4", "adapter/adapter_memory.go",
+       "					a.mu.Lock()\n					ids.Add(sid)\n", "					a.mu.Lock()\n")
+mutant("c04-addall-no-rooms-side", "C04", "C04-D1", "adapter/adapter_memory.go",
+       """		if !r.Contains(sid) {
+			r.Add(sid)
+		}""",
+       """		_ = r""")
+mutant("c04-onclose-no-leaveall", "C04", "C04-D5", "server_socket.go",
+       "		wg.WaitTimeout(10 * time.Second)\n		s.leaveAll()\n", "		wg.WaitTimeout(10 * time.Second)\n")
+mutant("c04-emit-swaps-rooms-except", "C04", "C04-D3", "adapter/broadcast_operator.go",
+       "	opts.Rooms = b.rooms\n	opts.Except = b.exceptRooms\n", "	opts.Rooms = b.exceptRooms\n	opts.Except = b.rooms\n")
+mutant("c04-delete-keeps-empty-room-check", "C04", "C04-D1", "adapter/adapter_memory.go",
+       "		if r.Cardinality() == 0 {\n			delete(a.rooms, room)", "		if r.Cardinality() <= 1 {\n			delete(a.rooms, room)")
+mutant("c04-deleteall-keeps-rooms", "C04", "C04-D1", "adapter/adapter_memory.go",
+       """	s.Each(func(room Room) bool {
+		a.delete(sid, room)
+		return false
+	})
+
+	delete(a.sids, sid)""",
+       """	_ = s
+	delete(a.sids, sid)""")
+mutant("c04-except-computed-from-rooms", "C04", "C04-D4", "adapter/adapter_memory.go",
+       "	exceptSids := a.computeExceptSids(opts.Except)", "	exceptSids := a.computeExceptSids(opts.Rooms)")
+mutant("c04-socket-local-operator-bypasses", "C04", "C04-D2", "server_socket.go",
+       "func (s *serverSocket) Local() *BroadcastOperator {\n	return s.newBroadcastOperator().Local()",
+       "func (s *serverSocket) Local() *BroadcastOperator {\n	return s.nsp.Local()")
+mutant("c04-callback-under-lock", "C04", "C04-D4", "adapter/adapter_memory.go",
+       """			if ok {
+				a.mu.Unlock()
+				callback(socket)
+				a.mu.Lock()
+			}
+		}
+	}""",
+       """			if ok {
+				callback(socket)
+			}
+		}
+	}""")
+mutant("c04-fetch-shares-sets", "C04", "C04-D3", "adapter/broadcast_operator.go",
+       """func (b *BroadcastOperator) SocketsJoin(room ...Room) {
+	opts := NewBroadcastOptions()
+	opts.Rooms = b.rooms.Clone()""",
+       """func (b *BroadcastOperator) SocketsJoin(room ...Room) {
+	opts := NewBroadcastOptions()
+	opts.Rooms = b.exceptRooms.Clone()""")
